@@ -216,6 +216,60 @@ func script(seed int64, idx int) {
 				sim.Mutate("advance", func(s *evmsim.Sim) { s.AdvanceHead(s.Head + 1) })
 			}
 			sim.WithLock(func() { delete(sim.Faults, "getTransactionReceipt") })
+		case x == 12 && !allowFaults: // a pending transaction is re-mined in a LATER block (the removed log and the new log arrive in either order); heads then approach the depth of the old inclusion
+			cl := []uint8{1, 15, 15, 200}[rng.Intn(4)]
+			var tx *evmsim.Tx
+			var blk, nb *evmsim.Block
+			d := uint64(1 + rng.Intn(4))
+			newFirst := rng.Intn(2) == 0
+			sim.Mutate("mine", func(s *evmsim.Sim) {
+				var hb [32]byte
+				rng.Read(hb[:])
+				tx = &evmsim.Tx{Hash: ethcommon.Hash(hb), Status: 1, Note: "core"}
+				tx.Logs = []*evmsim.LogSpec{mkLog("core", cl)}
+				if md == "bsc" {
+					blk = s.Include(tx, s.Head+1)
+					s.AdvanceHead(blk.Number) // pending: waits for its confirmations
+				} else {
+					blk = s.Include(tx, s.Head+2) // pending: above the served (finalized) head
+				}
+			})
+			txs = append(txs, tx)
+			e := &expectation{tx: tx, log: tx.Logs[0], block: blk, note: fmt.Sprintf("cl=%d re-mined %d blocks later", cl, d)}
+			exp[tx.Hash] = e
+			tr(fmt.Sprintf("mine core tx=%x cl=%d in block %d (pending)", tx.Hash[:4], cl, blk.Number))
+			vlib.CCount("txs_core", 1)
+			h.Quiesce(3, 20*time.Second)
+			sim.Mutate("remine-later", func(s *evmsim.Sim) { _, nb = s.RemineLater(tx, d, newFirst) })
+			for _, x := range exp {
+				if x.tx.Block == nil {
+					x.block = nil
+				} else if x.tx.Block != x.block {
+					x.block = x.tx.Block
+				}
+			}
+			tr(fmt.Sprintf("reorg: tx=%x leaves block %d and is re-mined in block %d; new log first=%v", tx.Hash[:4], blk.Number, nb.Number, newFirst))
+			vlib.CCount("remined_in_later_block", 1)
+			vlib.CCount("reorgs", 1)
+			h.Quiesce(3, 20*time.Second)
+			// heads one by one up to the depth the OLD inclusion would have needed, then on to the new one's and beyond
+			need := uint64(1)
+			if md == "bsc" {
+				need = uint64(cl)
+				if need < 15 {
+					need = 15
+				}
+			}
+			steps := int(need) + int(d) + 3
+			if steps > 40 {
+				sim.Mutate("advance", func(s *evmsim.Sim) { s.AdvanceHead(blk.Number + need - 2) })
+				h.Quiesce(2, 20*time.Second)
+				steps = int(d) + 6
+			}
+			for i := 0; i < steps; i++ {
+				sim.Mutate("advance", func(s *evmsim.Sim) { s.AdvanceHead(s.Head + 1) })
+				h.Quiesce(2, 20*time.Second)
+			}
 		case x == 9 && rng.Intn(2) == 0: // mined but not yet at the depth the watcher reads (e.g. not finalized): re-observed right away
 			ahead := uint64(1 + rng.Intn(5))
 			cl := cls[rng.Intn(len(cls))]
